@@ -21,7 +21,7 @@ from typing import Optional
 
 from .flow import FuncRef, Program
 from .linear import Lin
-from .pyfacts import attr_chain, call_name, norm, stmts_of, walk_no_nested
+from .pyfacts import Unknown, attr_chain, call_name, norm, stmts_of, walk_no_nested
 from .q import Fn, atoms_of, clone, flatten_cond
 from .report import VERIF, AnalysisError
 
@@ -219,6 +219,13 @@ class Escape:
         alt = None
         for i, s in enumerate(self.suppressions):
             if s.get("kind", "drop") == "drop" and s["in"] == fr.ref and s["exc"] in (cls, "*"):
+                if s.get("requires_atom"):
+                    # the checkable premise of the reason: the condition still guards the statement
+                    from .q import natom as _natom
+
+                    f_ = self.fn(fr)
+                    if _natom(s["requires_atom"]) not in f_.guard_atoms(st) + f_.lexical_guards(st, expand=False):
+                        continue
                 if "stmt_re" in s:
                     # same statement up to the name of one local (named group-free regex over the normalised text)
                     if re.match(s["stmt_re"], text):
@@ -350,6 +357,16 @@ class Escape:
                 ex = self.repo.const(fr.mod, n.right)
                 if isinstance(ex, float) and not ex.is_integer() and not self._nonneg_at(f, n, n.left):
                     add("TypeError", "fractional power of a value that is not provably non-negative (complex result)", None, n)
+            elif isinstance(n, ast.BinOp) and isinstance(n.op, ast.Mod):
+                # S5d: %-formatting with a format string that itself came out of a %-formatting of non-constant data:
+                # the data (e.g. the repr of a peer-supplied name containing '%') is interpreted as conversion
+                # specifiers - ValueError / TypeError / KeyError while the message is built
+                left = n.left
+                if isinstance(left, ast.Name):
+                    defs = f.local_defs(left.id)
+                    left = defs[0] if len(defs) == 1 else None
+                if isinstance(left, ast.BinOp) and isinstance(left.op, ast.Mod) and isinstance(left.left, ast.Constant) and isinstance(left.left.value, (str, bytes)) and self.repo.const(fr.mod, left.right) is Unknown:
+                    add("ValueError", "format string built by %-formatting non-constant data and then formatted again", None, n)
         if isinstance(st, ast.Assign) and len(st.targets) == 1 and isinstance(st.targets[0], (ast.Tuple, ast.List)):
             v = st.value
             if isinstance(v, ast.Call) and isinstance(v.func, ast.Attribute) and v.func.attr in ("split", "rsplit", "partition") and v.func.attr != "partition":
